@@ -19,7 +19,12 @@ def parse_data(content, type_code):
 
     raw = np.frombuffer(content, dtype)
     if type_code == "C*8":
-        return raw["real"] + 1j * raw["imag"]
+        # assemble the complex values component-wise: `real + 1j * imag` is not
+        # bit-exact for non-finite components and negative zeros
+        data = np.empty(raw.shape, dtype="complex64")
+        data.real = raw["real"]
+        data.imag = raw["imag"]
+        return data
     return raw
 
 
